@@ -27,7 +27,10 @@ def snap_or_approx(x):
     try:
         s = snap(x)
         if s is None:
-            fr = Fraction(round(float(x) * 10 ** 6), 10 ** 6)
+            # a double whose shortest text is a short decimal (1.25e-05, 12.345678) is that decimal, exactly
+            fr = Fraction(repr(float(x)))
+            if fr.denominator > 10 ** 9 or abs(fr.numerator) > INT_MAX:
+                fr = Fraction(round(float(x) * 10 ** 6), 10 ** 6)
             s = [fr.numerator, fr.denominator]
     except (OverflowError, ValueError):     # inf / nan
         return [0, 0]
